@@ -241,7 +241,11 @@ func genVariants(rng *rand.Rand, full *listing, m *vecModel, ids *idGen, n int) 
 			o.K = []int{math.MaxInt32, math.MaxInt64, math.MinInt64, math.MinInt32}[rng.IntN(4)] // all of them mean "everything"
 		}
 		switch rng.IntN(8) {
-		case 0, 1:
+		case 0:
+			if nl > 0 { // exactly the score of one of the best three: a tight bound, the documented <= boundary
+				o.Threshold = full.scores[rng.IntN(min(nl, 3))]
+			}
+		case 1:
 			if nl > 0 { // exactly a reported score: the documented <= boundary
 				o.Threshold = full.scores[rng.IntN(nl)]
 			}
